@@ -1205,7 +1205,8 @@ def seq_build_poscar(ctx, am, i, pl):
                   float_format=v('float_format', PFORMATS, r + i // 6), header=v('header', ['', 'generated', 'a b c 1 2 3'], r))
         exp_symbols = list(d['symbols']) if symmode == 'system' else None
         if symmode == 'argument' or (aspect == 'symbols' and k > 0):
-            exp_symbols = [S.SYMBOL_POOL[(j * 3 + i + 2 * k) % len(S.SYMBOL_POOL)] for j in range(d['ntypes'])]
+            ntypes = d['ntypes'] if symmode == 'system' else int(np.max(d['atype']))   # a System without symbols has max(atype) types
+            exp_symbols = [S.SYMBOL_POOL[(j * 3 + i + 2 * k) % len(S.SYMBOL_POOL)] for j in range(ntypes)]
             kw['symbols'] = list(exp_symbols) if (i + k) % 2 else tuple(exp_symbols)
         elems[letter] = dict(sys=key, kw=kw, exp_symbols=exp_symbols, outmode=OUTMODES[(i + i // 7) % 3])
     if aspect == 'header':
